@@ -314,6 +314,7 @@ func (b *fakeBlob) Refresh(ctx context.Context, host source.RegistryHosts, refsp
 func (b *fakeBlob) Close() error { return nil }
 
 type openLayer struct {
+	blob  *fakeBlob // the layer's blob: the harness controls what FetchedSize reports
 	mr    metadata.Reader
 	root  fusefs.InodeEmbedder
 	dg    digest.Digest
@@ -348,13 +349,14 @@ func openRootOn(mr metadata.Reader, dg, toc digest.Digest, opaque int, base uint
 	// the db store answers GetAttr(root) without waiting for its asynchronous initialisation (link count of the root may
 	// still be partial: DESIGN F13, a C05 matter); wait for it so that the root attributes newNode captures are final
 	_ = mr.ForeachChild(mr.RootID(), func(string, uint32, os.FileMode) bool { return false })
-	root, err := layer.VerifNewRootNodeC07(b.dg, rr, &fakeBlob{bsize, fetched}, base, layer.OverlayOpaqueType(opaque))
+	fb := &fakeBlob{bsize, fetched}
+	root, err := layer.VerifNewRootNodeC07(b.dg, rr, fb, base, layer.OverlayOpaqueType(opaque))
 	if err != nil {
 		rr.Close()
 		return nil, err
 	}
 	fusefs.NewNodeFS(root, &fusefs.Options{}) // initialises the root inode (as the server does on mount)
-	return &openLayer{mr: mr, root: root, dg: b.dg, close: func() { rr.Close() }}, nil
+	return &openLayer{blob: fb, mr: mr, root: root, dg: b.dg, close: func() { rr.Close() }}, nil
 }
 
 // ---------------------------------------------------------------------------------------------
@@ -699,9 +701,107 @@ func runNode(c Case) (res nodeRun) {
 	firstLookup := map[string]string{}
 	lookupNode := map[string]*fusefs.Inode{}
 	registered := map[string]*fusefs.Inode{}
-	for _, o := range c.Ops {
+	// the state file as a long-lived object: its inode is kept across ops; the environment it reports (FetchedSize of the
+	// blob, errors reported by failing ops) changes between the calls
+	var statInode *fusefs.Inode
+	reported := false
+	fetchedAt := make([]int64, len(c.Ops))
+	reportedAt := make([]bool, len(c.Ops))
+	statLookup := func() (*fusefs.Inode, string, lookupRes) {
+		r := doLookup(n, stateDir)
+		if r.errno != 0 || r.kind != "state" {
+			bad("Lookup(%q) on the root failed (errno %d kind %q)", stateDir, int(r.errno), r.kind)
+			return nil, "", r
+		}
+		name := ol.dg.String() + ".json"
+		f := doLookup(r.inode.Operations(), name)
+		if f.errno != 0 || f.kind != "statfile" {
+			bad("stat file %q cannot be looked up (errno %d kind %q)", name, int(f.errno), f.kind)
+			return nil, name, f
+		}
+		return f.inode, name, f
+	}
+	for oi, o := range c.Ops {
+		fetchedAt[oi], reportedAt[oi] = ol.blob.fetched, reported
 		var ob Obs
 		switch o.Op {
+		case "setfetched":
+			ol.blob.fetched = int64(o.Dlen)
+			ob = Obs{}
+		case "statlookup":
+			ino, name, f := statLookup()
+			if ino == nil {
+				ob = Obs{Z: []int64{int64(syscall.EIO)}}
+				break
+			}
+			statInode = ino
+			ob = Obs{Z: []int64{0, int64(f.attr.Mode), int64(f.attr.Ino)}, S: []string{name}}
+		case "statgetattr":
+			if statInode == nil {
+				statInode, _, _ = statLookup()
+			}
+			if statInode == nil {
+				ob = Obs{Z: []int64{int64(syscall.EIO)}}
+				break
+			}
+			var ao fuse.AttrOut
+			if errno := statInode.Operations().(fusefs.NodeGetattrer).Getattr(context.Background(), nil, &ao); errno != 0 {
+				bad("Getattr of the stat file failed: %d", int(errno))
+				ob = Obs{Z: []int64{int64(errno)}}
+				break
+			}
+			ob = Obs{Z: []int64{0, int64(ao.Attr.Mode), int64(ao.Attr.Ino)}}
+		case "statread":
+			if statInode == nil {
+				statInode, _, _ = statLookup()
+			}
+			if statInode == nil {
+				ob = Obs{Z: []int64{int64(syscall.EIO)}}
+				break
+			}
+			buf := make([]byte, 8192)
+			rr, errno := statInode.Operations().(fusefs.NodeReader).Read(context.Background(), nil, buf, 0)
+			if errno != 0 {
+				bad("stat file read failed: %d", int(errno))
+				ob = Obs{Z: []int64{int64(errno)}}
+				break
+			}
+			data, _ := rr.Bytes(nil)
+			var js struct {
+				Error       string   `json:"error"`
+				Digest      *string  `json:"digest"`
+				Size        *int64   `json:"size"`
+				FetchedSize *int64   `json:"fetchedSize"`
+				Percent     *float64 `json:"fetchedPercent"`
+			}
+			if err := json.Unmarshal(data, &js); err != nil || js.Digest == nil || js.Size == nil || js.FetchedSize == nil {
+				bad("stat file is not valid JSON with digest, size and fetchedSize: %q", string(data))
+				ob = Obs{Z: []int64{-5}}
+				break
+			}
+			// model-free: the file reports the blob as it is NOW, and an error iff one was reported
+			if *js.Digest != ol.dg.String() || *js.Size != c.BSize {
+				bad("stat file reports digest %q size %d; want %q %d", *js.Digest, *js.Size, ol.dg.String(), c.BSize)
+			}
+			if *js.FetchedSize != ol.blob.fetched {
+				bad("stat file reports fetchedSize %d while the blob's FetchedSize is %d at the time of the Read", *js.FetchedSize, ol.blob.fetched)
+			}
+			if c.Fake != nil && c.Fake.hasHugeID() {
+				// with ids beyond the inode space a Lookup miss reports the failure of the readdir it runs for memoisation
+				// while answering ENOENT: the error state is not derivable from the answers; take it as observed
+				reportedAt[oi] = js.Error != ""
+			} else if (js.Error != "") != reported {
+				bad("stat file error field %q while errors reported so far = %v", js.Error, reported)
+			}
+			he := int64(0)
+			if js.Error != "" {
+				he = 1
+			}
+			ob = Obs{Z: []int64{*js.Size, *js.FetchedSize, he}, S: []string{*js.Digest}}
+			res.stats = append(res.stats, fmt.Sprintf("statread.err=%v", js.Error != ""))
+		case "openfail":
+			_, _, errno := n.(fusefs.NodeOpener).Open(context.Background(), 0)
+			ob = Obs{Z: []int64{int64(errno)}}
 		case "readdir":
 			was := layer.VerifEntsCachedC07(n)
 			ents, errno := doReaddir(n)
@@ -809,6 +909,9 @@ func runNode(c Case) (res nodeRun) {
 			ob = Obs{Z: []int64{int64(sz), int64(errno)}, S: names}
 		case "state":
 			ob = stateProbe(n, ol, c, bad)
+		}
+		if len(ob.Z) == 1 && ob.Z[0] == int64(syscall.EIO) {
+			reported = true // every EIO answer of node.go goes with a report to the state file
 		}
 		if ob.S == nil {
 			ob.S = []string{}
@@ -1041,7 +1144,17 @@ func runNode(c Case) (res nodeRun) {
 		case "listxattr":
 			ops[i] = fmt.Sprintf("OListxattr %d", o.Dlen)
 		case "state":
-			ops[i] = fmt.Sprintf("OState %s %d %d", coqStr(ol.dg.String()), c.BSize, c.Fetched)
+			ops[i] = fmt.Sprintf("OState %s %d %d", coqStr(ol.dg.String()), c.BSize, fetchedAt[i])
+		case "setfetched":
+			ops[i] = fmt.Sprintf("OSetFetched %d", o.Dlen)
+		case "statlookup":
+			ops[i] = fmt.Sprintf("OStatLookup %s", coqStr(ol.dg.String()))
+		case "statgetattr":
+			ops[i] = "OStatGetattr"
+		case "statread":
+			ops[i] = fmt.Sprintf("OStatRead %s %d %d %s", coqStr(ol.dg.String()), c.BSize, fetchedAt[i], hx.CoqBool(reportedAt[i]))
+		case "openfail":
+			ops[i] = "OOpenFail"
 		}
 	}
 	outs := make([]string, len(res.obs))
@@ -1131,8 +1244,8 @@ func stateProbe(n fusefs.InodeEmbedder, ol *openLayer, c Case, bad func(string, 
 	if !ok1 || !ok2 {
 		bad("stat file lacks size / fetchedSize")
 	}
-	if dg != ol.dg.String() || int64(size) != c.BSize || int64(fetched) != c.Fetched {
-		bad("stat file reports digest %q size %v fetched %v; want %q %d %d", dg, size, fetched, ol.dg.String(), c.BSize, c.Fetched)
+	if dg != ol.dg.String() || int64(size) != c.BSize || int64(fetched) != ol.blob.fetched {
+		bad("stat file reports digest %q size %v fetched %v; want %q %d %d", dg, size, fetched, ol.dg.String(), c.BSize, ol.blob.fetched)
 	}
 	z := r.attr.list()
 	z = append(z, int64(f.attr.Mode), int64(f.attr.Ino), int64(size), int64(fetched))
@@ -1900,6 +2013,34 @@ func genOps(r *hx.Rng, c Case, isDir bool) []Op {
 			}
 		}
 	}
+	if isDir && c.Path == "" && r.Chance(3, 5) {
+		// the state file read again and again while the layer keeps fetching (and failing): stat, grow, read in every order
+		grow := func() Op { return Op{Op: "setfetched", Dlen: r.Intn(1 << 20)} }
+		rdf := Op{Op: "statread"}
+		var seq []Op
+		switch r.Intn(4) {
+		case 0:
+			seq = []Op{{Op: "statlookup"}, grow(), rdf}
+		case 1:
+			seq = []Op{{Op: "statlookup"}, {Op: "statgetattr"}, grow(), rdf, grow(), rdf}
+		case 2:
+			seq = []Op{rdf, grow(), rdf}
+		case 3:
+			seq = []Op{{Op: "statlookup"}, rdf, grow(), {Op: "statgetattr"}, grow(), rdf, {Op: "state"}}
+		}
+		if c.Fake != nil && r.Chance(1, 2) {
+			// an error reported between the stat and the read
+			at := 1 + r.Intn(len(seq)-1)
+			seq = append(seq[:at:at], append([]Op{{Op: "openfail"}}, seq[at:]...)...)
+		}
+		// spread the sequence over the history, keeping its order
+		pos := 0
+		for _, so := range seq {
+			pos += r.Intn(len(ops) - pos + 1)
+			ops = append(ops[:pos:pos], append([]Op{so}, ops[pos:]...)...)
+			pos++
+		}
+	}
 	if isDir && c.Path == "" && r.Chance(1, 2) {
 		// the kernel re-looks the state directory up while its inode is still alive (liveness probes do)
 		at := r.Intn(len(ops) + 1)
@@ -2091,6 +2232,14 @@ func corpus() []Case {
 			Ops: []Op{lk(stateDir, true), lk(stateDir, true), {Op: "state"}, rd, lk(stateDir, false), lk("b", true), lk("b", true), lk("a", true), lk("a", false), {Op: "forget", Name: stateDir}, lk(stateDir, true), lk(stateDir, false), {Op: "state"}}},
 		{Layers: [][]TarEnt{lower}, LI: 0, Path: "", Store: "db", Opaque: 0, Base: 12, BSize: 5, Fetched: 5,
 			Ops: []Op{rd, lk(stateDir, true), lk("zz", false), lk(stateDir, false), {Op: "state"}, lk(stateDir, true)}},
+		// the state file over time: Lookup;grow;Read — Getattr;grow;Read — Read;grow;Read — and an error reported in between
+		{Layers: [][]TarEnt{lower, upper}, LI: 1, Path: "", Store: "memory", Opaque: 1, Base: 21, BSize: 1000, Fetched: 10,
+			Ops: []Op{{Op: "statlookup"}, {Op: "setfetched", Dlen: 500}, {Op: "statread"}, {Op: "statgetattr"}, {Op: "setfetched", Dlen: 700}, {Op: "statread"}, {Op: "setfetched", Dlen: 1000}, {Op: "statread"}, {Op: "state"}}},
+		{Layers: [][]TarEnt{lower}, LI: 0, Path: "", Store: "db", Opaque: 2, Base: 22, BSize: 4096, Fetched: 0,
+			Ops: []Op{{Op: "statread"}, {Op: "setfetched", Dlen: 4096}, {Op: "statread"}, rd, {Op: "statgetattr"}, {Op: "setfetched", Dlen: 17}, lk("a", true), {Op: "statread"}}},
+		{Store: "fake", Path: "", Opaque: 1, Base: 23, BSize: 50, Fetched: 5, Fake: &FakeTree{Root: 1, Nodes: []FakeNode{
+			{ID: 1, Mode: 0o755 | uint32(os.ModeDir), NL: 2, Kids: []FakeKid{{"f", 2}}}, {ID: 2, Mode: 0o644, NL: 1}}},
+			Ops: []Op{{Op: "statlookup"}, {Op: "statread"}, {Op: "openfail"}, {Op: "statread"}, {Op: "statgetattr"}, {Op: "setfetched", Dlen: 50}, {Op: "statread"}}},
 		// every opaque mode on a directory with the marker and on one without (xattr of the configured names only)
 		{Layers: [][]TarEnt{lower, upper}, LI: 1, Path: "a/c", Store: "db", Opaque: 1, Base: 13, BSize: 5, Fetched: 0,
 			Ops: []Op{{Op: "getxattr", Name: "trusted.overlay.opaque", Dlen: 8}, {Op: "getxattr", Name: "user.overlay.opaque", Dlen: 8}, {Op: "listxattr", Dlen: 100}}},
